@@ -1,4 +1,7 @@
 import LinOp.C03.ProofsConvert
+import LinOp.C03.ProofsOps
+import LinOp.C03.ProofsRange
+import LinOp.C03.ProofsFront
 import LinOp.Generated.C03Getitem
 /-!
 C03 — indexing matches torch indexing of the dense matrix.  Property theorems only.
@@ -388,6 +391,173 @@ example :
       [(6, .tensor [3] [5, 0, 3]), (3, .tensor [3] [1, 2, 0])] = [4, -5, -2] ∧
     denseGetitem (kronSpec [(fun a b => (a : Int) + 2 * b + 1, 2, 3), (fun a _ => (a : Int) - 1, 3, 1)])
       [(6, .tensor [3] [5, 0, 3]), (3, .tensor [3] [1, 2, 0])] = [4, -5, -2] := by decide
+
+/-! ## The operator type (`LinOp/C03/Ops.lean`): per-class `_get_indices` / `_diagonal` refinement, nestings, batch dims
+
+`Opv` = (size, dense value `den`, `_get_indices` arithmetic `gi`, `_diagonal` arithmetic `dg`); one constructor
+per operator class, applied to each other for nestings; `Built` = everything obtained from the constructors with
+their size side conditions.  `b` is the batch multi-index (any number of batch dims). -/
+
+/-- **`_get_indices` of every class and every nesting reads the dense value** — for every operator built from the class
+constructors (Dense, Diag/ConstantDiag/Identity, Zero, Toeplitz, Kronecker (any number of possibly non-square
+factors), BlockDiag, BlockInterleaved, SumBatch, BatchRepeat, Cat along rows / columns / a batch dim,
+Interpolated, Triangular, Root/LowRankRoot/Chol, Matmul, Sum, ConstantMul, Mul, Masked, TransposePermutation,
+base-class fallback), to any nesting depth, every batch index and every in-range `(i, j)`:
+the class's index arithmetic returns entry `(b, i, j)` of the dense value.  Induction over `Built`. -/
+theorem opv_getIndices_refines (op : Opv) (h : Built op) (b : List Nat) (i j : Nat) (hi : i < op.R) (hj : j < op.C) :
+    op.gi b i j = op.den b i j := (built_refines op h).1 b i j hi hj
+
+/-- **`_diagonal` of every class and every nesting is the dense main diagonal** (square operators; batched). -/
+theorem opv_diagonal_refines (op : Opv) (h : Built op) (hsq : op.R = op.C) (b : List Nat) (k : Nat) (hk : k < op.R) :
+    op.dg b k = op.den b k k := (built_refines op h).2 hsq b k hk
+
+/-- the operator type is inhabited by non-trivial nestings: BlockDiag over a Kronecker product of a dense and a Toeplitz factor, summed with a Diag -/
+example (f : List Nat → Nat → Nat → Int) (c d : List Nat → Nat → Int) :
+    Built (Opv.sum 12 12 [Opv.blockDiag 2 (Opv.kron [Opv.dense 2 2 f, Opv.toeplitz 3 c]), Opv.diag 12 d]) := by
+  refine Built.sum _ _ _ (fun p hp => ?_) (fun p hp => ?_)
+  · simp only [List.mem_cons, List.not_mem_nil, or_false] at hp
+    rcases hp with rfl | rfl
+    · refine Built.blockDiag _ _ (Built.kron _ (fun o ho => ?_))
+      simp only [List.mem_cons, List.not_mem_nil, or_false] at ho
+      rcases ho with rfl | rfl
+      · exact Built.dense ..
+      · exact Built.toeplitz ..
+    · exact Built.diag ..
+  · simp only [List.mem_cons, List.not_mem_nil, or_false] at hp
+    rcases hp with rfl | rfl <;> exact ⟨rfl, rfl⟩
+
+/-- **`getitem_refines`** — `__getitem__`'s tensor-index path (flatten → `_convert_indices_to_tensors` →
+`_get_indices(row, col, *batch)`) over the whole operator type: for every built operator (any class / nesting), any
+number `m` of batch dims and EVERY valid index tuple (ints incl. negative, slices with any bounds / positive step,
+integer tensors of any shapes with in-range entries, in every position; `hv` = the range check at the top of
+`__getitem__` + positive dims), the values returned are exactly torch's indexing of the dense batched value.
+No in-range hypothesis is left: it is discharged by `specSrc_inRange`. -/
+theorem getitem_refines (op : Opv) (h : Built op) (zi : List (Nat × Item)) (m : Nat) (hlen : zi.length = m + 2)
+    (hR : (zi.getD m (0, Item.ellipsis)).1 = op.R) (hC : (zi.getD (m + 1) (0, Item.ellipsis)).1 = op.C)
+    (hv : ∀ x ∈ zi, itemValid x = true ∧ 0 < x.1) :
+    getitemOp op zi = denseGetitemOp op zi := by
+  unfold getitemOp denseGetitemOp
+  apply List.map_congr_left
+  intro r hr
+  have hl := box_length _ r hr
+  have hc := convSrc_eq_specSrc zi r (by have := specShape_length_ge zi; omega)
+  simp only [hc]
+  have hF := specSrc_inRange _ hv r hr
+  have hlen' := hF.length_eq
+  have h1 := forall₂_getD_lt _ _ hF m (by omega)
+  have h2 := forall₂_getD_lt _ _ hF (m + 1) (by omega)
+  rw [hR] at h1; rw [hC] at h2
+  simp only [splitB, hlen', hlen, Nat.add_sub_cancel, show m + 2 - 1 = m + 1 by omega]
+  exact (built_refines op h).1 _ _ _ h1 h2
+
+/-- the hypotheses of `getitem_refines` in the familiar form: batch items `pre`, then the row and column items -/
+theorem getitem_refines_rowcol (op : Opv) (h : Built op) (pre : List (Nat × Item)) (ir ic : Item)
+    (hv : ∀ x ∈ pre ++ [(op.R, ir), (op.C, ic)], itemValid x = true ∧ 0 < x.1) :
+    getitemOp op (pre ++ [(op.R, ir), (op.C, ic)]) = denseGetitemOp op (pre ++ [(op.R, ir), (op.C, ic)]) :=
+  getitem_refines op h _ pre.length (by simp) (by simp [List.getD_eq_getElem?_getD])
+    (by simp [List.getD_eq_getElem?_getD]) hv
+
+/-- **`__getitem__` front end, composed** (tensor-index dispatch): ellipsis expansion + padding ∘ range check ∘
+`_normalize_negative_index` ∘ `row_col_are_absorbed` dispatch ∘ `_convert_indices_to_tensors` ∘ `_get_indices` of any
+built operator, together with the debug-mode expected shape `_compute_getitem_size` of the NORMALISED index:
+whenever the modelled front end answers, its shape is torch's result shape of the ORIGINAL index (advanced-index
+dims at torch's position) and its values are torch's indexing of the dense batched value with the ORIGINAL
+index (negative ints / negative tensor entries included). -/
+theorem frontEnd_eq_torch (op : Opv) (h : Built op) (bdims : List Nat) (idx : List Item) (sh : List Nat) (vals : List Int)
+    (hres : frontEnd op bdims idx = some (sh, vals)) :
+    ∃ e, expandEllipsis (bdims ++ [op.R, op.C]).length idx = some e ∧
+      sh = specShape (List.zip (bdims ++ [op.R, op.C]) e) ∧
+      vals = denseGetitemOp op (List.zip (bdims ++ [op.R, op.C]) e) := by
+  unfold frontEnd at hres
+  simp only at hres
+  split at hres
+  · exact absurd hres (by simp)
+  · rename_i e he
+    refine ⟨e, he, ?_⟩
+    split at hres
+    · exact absurd hres (by simp)
+    · rename_i hvalid
+      split at hres
+      · exact absurd hres (by simp)
+      · rename_i hguard
+        split at hres
+        · simp only [Option.some.injEq, Prod.mk.injEq] at hres
+          obtain ⟨hs, hvv⟩ := hres
+          simp only [Bool.not_eq_true', Bool.not_eq_false, Bool.and_eq_true, decide_eq_true_eq, List.all_eq_true] at hvalid hguard
+          have hv : ∀ x ∈ List.zip (bdims ++ [op.R, op.C]) e, itemValid x = true ∧ 0 < x.1 := hvalid
+          have hvn := valid_normalise _ hv
+          constructor
+          · rw [← hs, computeGetitemSize_eq_spec, specShape_normalise]
+          · rw [← hvv, getitem_refines op h (normalise _) bdims.length (by rw [normalise_length]; exact hguard.1.1)
+              (by rw [normalise_getD_fst]; exact hguard.1.2) (by rw [normalise_getD_fst]; exact hguard.2) hvn]
+            unfold denseGetitemOp
+            simp only [specShape_normalise, tensorShapes_normalise, specSrc_normalise]
+        · exact absurd hres (by simp)
+
+/-- the front end answers on non-trivial inputs: `K[..., [-1, 0, 3], [1, -1, 0]]` on a batch-(2) Kronecker operator (2×3 ⊗ 3×1)
+— the premise of `frontEnd_eq_torch` is satisfiable, negative tensor entries included -/
+example : frontEnd (Opv.kron [Opv.dense 2 3 (fun b i j => (i : Int) + 2 * j + 1 + b.headD 0), Opv.dense 3 1 (fun _ i _ => (i : Int) - 1)])
+    [2] [.ellipsis, .tensor [3] [-1, 0, 3], .tensor [3] [1, -1, 0]]
+    = some ([2, 3], [4, -5, -2, 5, -6, -3]) := by decide
+
+/-- **every source index read for a valid index tuple is in range** (ints / tensor entries wrapped once, slices
+by `slice.indices`, for every result coordinate) — the fact the refinement theorems used to assume (`hin`). -/
+theorem srcIndex_inRange (zi : List (Nat × Item)) (hv : ∀ x ∈ zi, itemValid x = true ∧ 0 < x.1)
+    (r : List Nat) (hr : r ∈ box (specShape zi)) :
+    List.Forall₂ (fun s (x : Nat × Item) => s < x.1) (specSrc (bcAll (tensorShapes zi)).length zi r) zi :=
+  specSrc_inRange zi hv r hr
+
+/-- Kronecker `_diagonal` (`_kron_diag`, all factors square): entry `k` of the reshaped outer product of the factors'
+diagonals is the `(k, k)` entry of `A₁ ⊗ … ⊗ A_P` — mixed-radix decomposition of `k`, any number of factors. -/
+theorem kron_diagonal (b : List Nat) (fs : List Opv) (hsq : ∀ o ∈ fs, o.R = o.C)
+    (h : ∀ o ∈ fs, ∀ q, q < o.R → o.dg b q = o.den b q q) (k : Nat) (hk : k < prodNat (fs.map (·.R))) :
+    Opv.kronDiag (fs.map fun o => (o.dg b, o.R)) k = kronSpec (Opv.facDen fs b) k k :=
+  kronDiag_eq b fs hsq h k hk
+
+/-- BlockDiag `_diagonal` (`base._diagonal().view(*batch, k·n)`) is the diagonal of the block-diagonal matrix;
+BlockDiag `_get_indices` with the base's own (refining) `_get_indices` reads the block-diagonal matrix — batched, nested. -/
+theorem blockDiag_refines (k : Nat) (base : Opv) (h : Refines base) : Refines (Opv.blockDiag k base) :=
+  refines_blockDiag k base h
+
+/-- the dense value of the interleaved layout really is "entry `(r·k + blk, c·k + blk')` = `δ_{blk blk'} B_blk[r, c]`" -/
+theorem blockInter_den_layout (k : Nat) (base : Opv) (b : List Nat) (r c blk blk' : Nat) (h1 : blk < k) (h2 : blk' < k) :
+    (Opv.blockInter k base).den b (r * k + blk) (c * k + blk') = if blk = blk' then base.den (b ++ [blk]) r c else 0 := by
+  have hk : 0 < k := by omega
+  have e1 : (r * k + blk) % k = blk := by rw [Nat.add_comm, Nat.add_mul_mod_self_right, Nat.mod_eq_of_lt h1]
+  have e2 : (r * k + blk) / k = r := by rw [Nat.add_comm, Nat.add_mul_div_right _ _ hk, Nat.div_eq_of_lt h1, Nat.zero_add]
+  have e3 : (c * k + blk') % k = blk' := by rw [Nat.add_comm, Nat.add_mul_mod_self_right, Nat.mod_eq_of_lt h2]
+  have e4 : (c * k + blk') / k = c := by rw [Nat.add_comm, Nat.add_mul_div_right _ _ hk, Nat.div_eq_of_lt h2, Nat.zero_add]
+  simp only [Opv.blockInter, e1, e2, e3, e4]
+
+/-- the dense value of `TransposePermutationLinearOperator(m)` is the commutation matrix: row `a·m + b` has its one in column `b·m + a` -/
+theorem transPerm_den_layout (m a b a' b' : Nat) (_ha : a < m) (hb : b < m) (ha' : a' < m) (hb' : b' < m) (bt : List Nat) :
+    (Opv.transPerm m).den bt (a * m + b) (b' * m + a') = if a = a' ∧ b = b' then 1 else 0 := by
+  have hm : 0 < m := by omega
+  have e1 : (a * m + b) % m = b := by rw [Nat.add_comm, Nat.add_mul_mod_self_right, Nat.mod_eq_of_lt hb]
+  have e2 : (a * m + b) / m = a := by rw [Nat.add_comm, Nat.add_mul_div_right _ _ hm, Nat.div_eq_of_lt hb, Nat.zero_add]
+  have e3 : (b' * m + a') % m = a' := by rw [Nat.add_comm, Nat.add_mul_mod_self_right, Nat.mod_eq_of_lt ha']
+  have e4 : (b' * m + a') / m = b' := by rw [Nat.add_comm, Nat.add_mul_div_right _ _ hm, Nat.div_eq_of_lt ha', Nat.zero_add]
+  simp only [Opv.transPerm, e1, e2, e3, e4]
+
+/-- base-class `_get_indices` / `_diagonal` (one-hot interpolation `e_iᵀ (A e_j)` around any operator) returns `A[i, j]` -/
+theorem fallback_refines (R C : Nat) (den : List Nat → Nat → Nat → Int) : Refines (Opv.fallback R C den) :=
+  refines_fallback R C den
+
+/-- Cat (rows / columns / a batch dim, any number of pieces): `idx_to_tensor_idx` + cumulative offsets against the
+recursive concatenation — the lookup equals the spec for EVERY index (out-of-range ones read 0 on both sides) -/
+theorem cat_lookup_eq_spec (ps : List (Nat × (Nat → Int))) (x : Nat) : Opv.catGet ps x = Opv.catSpecG ps x :=
+  catGet_eq_spec ps x
+
+/-- Matmul `_diagonal`, Diag-operand branch (`left._diagonal() * right._diagonal()`), and the Dense·Dense / fallback
+branches: all three equal the diagonal of the product (the Diag branch needs one operand to be a diagonal matrix). -/
+theorem matmul_refines (mode : Nat) (A B : Opv) (hA : Refines A) (hB : Refines B) (hAB : A.C = B.R)
+    (hd : mode = 1 → A.R = A.C ∧ B.R = B.C ∧
+      ((∀ b i k, i ≠ k → A.den b i k = 0) ∨ (∀ b k j, k ≠ j → B.den b k j = 0))) :
+    Refines (Opv.matmul mode A B) := refines_matmul mode A B hA hB hAB hd
+
+/-- the Diag-branch hypothesis of `matmul_refines` is satisfiable: a Diag operand is a diagonal matrix -/
+example (n : Nat) (d : List Nat → Nat → Int) : ∀ b i k, i ≠ k → (Opv.diag n d).den b i k = 0 := by
+  intro b i k h; simp [Opv.diag, h]
 
 /-- **Translator obligation**: the index arithmetic extracted (Python `ast`) from /repo's working tree — which
 operations, with which rounding mode, in which order, each class's `_get_indices` / `_split_slice` and the
